@@ -287,12 +287,12 @@ package webtransport
 
 // ReadMessage: the whole message of the frame NextReader yields, read to its end (not whatever one read call returns)
 //@ func (*Conn).ReadMessage()
-//@   props C13
+//@   props C13, C15, C09
 //@   requires c != nil && c.br != nil && c.session != nil && c.readRemaining >= 0 && c.readErrCount < 999
 //@   requires c.reader == nil || typeis(c.reader, *messageReader)
 //@   modifies *
 //@   ensures [C13.rm.kind]   calls((*Conn).NextReader) == 1 && messageType == ret((*Conn).NextReader, 1, 0)
-//@   ensures [C13.rm.whole]  ret((*Conn).NextReader, 1, 2) == nil ==> calls(io.ReadAll) == 1 && arg(io.ReadAll, 1, r) == ret((*Conn).NextReader, 1, 1) && p == ret(io.ReadAll, 1, 0) && err == ret(io.ReadAll, 1, 1)
+//@   ensures [C13.rm.whole,C15.rm.whole]  ret((*Conn).NextReader, 1, 2) == nil ==> calls(io.ReadAll) == 1 && arg(io.ReadAll, 1, r) == ret((*Conn).NextReader, 1, 1) && p == ret(io.ReadAll, 1, 0) && err == ret(io.ReadAll, 1, 1)
 //@   ensures [C13.rm.fail]   ret((*Conn).NextReader, 1, 2) != nil ==> calls(io.ReadAll) == 0 && err == ret((*Conn).NextReader, 1, 2) && len(p) == 0
 
 // ReadFrom (the reader-fed write path): every byte the source hands over is accounted in the message buffer - also the
